@@ -103,7 +103,22 @@ pub fn oracle(c: &Corpus, seed: u64, tier: &str) -> Vec<Report> {
     }
     r.distinct_nontrivial = distinct.len() as u64;
 
-    vec![r, deep(tier)]
+    // single-token mutants of the corpus (see common::mutants) under every dialect: texts the
+    // suite never contained (a token deleted / duplicated, a keyword or literal swapped for a
+    // sibling) reach guards that no corpus text exercises
+    let mut rm = Report::new("C02", "oracle.no-panic-mutants", "single-token mutants of the corpus texts (delete / duplicate one token, swap a keyword for a sibling keyword, a number for ALL/NULL/DEFAULT, a string for NULL; rendered from the real tokens) x 13 dialects, default options: tokenize, parse under the quadratic step budget, then print, debug-format, clone and compare; no panic, no budget overrun. non-trivial = distinct (outcome/statement variant, dialect)");
+    let mut distinct2 = BTreeSet::new();
+    let ms = mutants(c, tier);
+    rm.count(&format!("mutants/{}", ms.len()));
+    for (j, s) in ms.iter().enumerate() {
+        for (dn, d) in ds.iter() {
+            exercise(&mut rm, dn, d.as_ref(), Opts::DEFAULT, s, &mut distinct2);
+        }
+        if j % 20011 == 0 { rm.sample(serde_json::json!({"mutant": s})); }
+    }
+    rm.distinct_nontrivial = distinct2.len() as u64;
+
+    vec![r, rm, deep(tier)]
 }
 
 // ---------------------------------------------------------------- deep inputs in child processes
